@@ -58,6 +58,47 @@ def dispatched(text):
     return rec
 
 
+def dispatched_tree(main_text, files):
+    """(token lists, how reading ended) for a tree of script files: `files` maps the names used in `load` commands
+    to texts, all in one directory.  Builder.build reads for real and `load` really switches files
+    (Builder.buildLoad); every other command is only recorded.
+    ended: done | ioerror (build returned False: a file could not be opened) | parseerror"""
+    core.import_ioflo()
+    from ioflo.base import building, excepting
+    import shutil
+    d = os.path.join(scratch_dir(), "tree")
+    shutil.rmtree(d, ignore_errors=True)
+    os.makedirs(d)
+    for name, text in files.items():
+        with open(os.path.join(d, name), "w", encoding="utf-8", newline="") as f:
+            f.write(text)
+    path = os.path.join(d, "main.flo")
+    with open(path, "w", encoding="utf-8", newline="") as f:
+        f.write(main_text)
+    b = building.Builder()
+    rec = []
+
+    def dispatch(tokens):
+        rec.append(list(tokens))
+        if tokens[0] == "load":
+            return building.Builder.buildLoad(b, "load", tokens, 1)
+        return True
+    b.dispatch = dispatch
+    try:
+        with time_limit(10.0):
+            ok = b.build(path)
+    except excepting.ParseError:
+        return rec, "parseerror"
+    finally:
+        for f in list(b.files) + [b.currentFile]:
+            try:
+                if f is not None and not f.closed:
+                    f.close()
+            except Exception:   # noqa
+                pass
+    return rec, ("done" if ok is True else "ioerror")
+
+
 def tokenize_is_fixed():
     """does the tree under test strip the last physical line of a backslash run (defect D50 repaired)?"""
     return dispatched("a \\\n\tb\n") == [["a", "b"]]
